@@ -19,11 +19,16 @@ RULE = ('[also: histories written by the library itself for two datasets of the 
         'dataset name); then a Process is constructed and compute(override) is run; non-trivial = at least one prior '
         'group whose name contains the dataset and tool text')
 DSETS = ['Raw', 'Raw_Data', 'Data', 'aw']
-TOOLS = ['Fit', 'Fitter', 'it', 'Fit_x', 'Fit_2']
+TOOLS = ['Fit', 'Fitter', 'it', 'Fit_x', 'Fit_2', 'Fit-x']
 BASE_PARMS = {'a': 1, 'b': 'x', 'c': [1, 2, 3], 'd': 2.5, 'e': 250000, 'f': [0.5, 1.5], 'g': ['x', 'yy'], 'h': True}
 PROGRESS = ['complete', 'partial', 'partial', 'legacy-complete', 'legacy-partial', 'neither', 'wrong-dtype',
             'wrong-length', 'rank2', 'not-dataset', 'values-2', 'complete', 'partial']
 TRUSTED = ['the source of a results group in another file is identified by name only (known finding KF-D15)']
+
+
+def _nt(t):
+    """the tool name as it appears in group names ('-' is replaced by the library)"""
+    return t.replace('-', '_')
 
 
 def perturb_parms(rng):
@@ -74,8 +79,8 @@ def generate(seed, tier):
                 pd, pt = d, t
             else:
                 pd, pt = rng.choice(DSETS), rng.choice(TOOLS)
-            idx = used.get((pd, pt), 0)
-            used[(pd, pt)] = idx + 1
+            idx = used.get((pd, _nt(pt)), 0)
+            used[(pd, _nt(pt))] = idx + 1
             parms, pk = perturb_parms(rng)
             prog = rng.choice(PROGRESS)
             if prog == 'partial':
@@ -90,7 +95,11 @@ def generate(seed, tier):
                 mask = [2] * ((n + 1) // 2) + [0] * (n - (n + 1) // 2)
             else:
                 mask = [1] * n
-            prior.append({'src_ref': rng.choice(['none', 'none', 'this', 'other']),
+            # what the library itself writes: the status dataset AND the legacy attribute (the dataset decides)
+            also_lp = None
+            if prog in ('complete', 'partial') and rng.random() < 0.35:
+                also_lp = rng.choice([0, n, rng.randint(0, n)])
+            prior.append({'also_last_pixel': also_lp, 'src_ref': rng.choice(['none', 'none', 'this', 'other']),
                           'dset': pd, 'tool': pt, 'index': idx, 'parms': parms, 'parms_kind': pk, 'progress': prog,
                           'mask': mask, 'last_pixel': rng.randint(0, n - 1) if prog == 'legacy-partial' else n,
                           'foreign': False})
@@ -119,9 +128,9 @@ def _mk_main(grp, name, n, m, anc):
 
 
 def _mk_prior(parent, pr, n, mains):
-    name = '%s-%s_%03d' % (pr['dset'], pr['tool'], pr['index'])
+    name = '%s-%s_%03d' % (pr['dset'], _nt(pr['tool']), pr['index'])
     g = parent.create_group(name)
-    g.attrs['tool'] = pr['tool']
+    g.attrs['tool'] = _nt(pr['tool'])
     g.attrs['verif_source'] = ('foreign:' if pr['foreign'] else 'this:') + pr['dset']
     if parent.file == mains[pr['dset']].file and pr.get('src_ref', 'none') != 'none':
         # the reference create_results_group() records within one file: to this very dataset, or to ANOTHER one
@@ -133,6 +142,8 @@ def _mk_prior(parent, pr, n, mains):
     prog = pr['progress']
     if prog in ('complete', 'partial', 'values-2'):
         g.create_dataset('completed_positions', data=np.array(pr['mask'], dtype=np.uint8))
+        if pr.get('also_last_pixel') is not None:
+            g.attrs['last_pixel'] = pr['also_last_pixel']
     elif prog == 'wrong-dtype':
         g.create_dataset('completed_positions', data=np.array(pr['mask'], dtype=np.int32))
     elif prog == 'wrong-length':
@@ -297,7 +308,7 @@ def run_impl(inp, work):
 
 def _genuine(inp, pr):
     """does the prior group really belong to (this dataset, this tool, these parameters)?"""
-    return pr['dset'] == inp['dset'] and pr['tool'] == inp['tool'] and not pr['foreign'] and \
+    return pr['dset'] == inp['dset'] and _nt(pr['tool']) == _nt(inp['tool']) and not pr['foreign'] and \
         pr['parms_kind'] in ('same', 'extra') and not (pr.get('src_ref') == 'other' and not inp['separate'])
 
 
@@ -317,7 +328,7 @@ def oracle(inp, obs):
     fails = []
     if 'construct_err' in obs:
         return ['construct: constructing the process raised %s' % obs['construct_err']]
-    names = ['%s-%s_%03d' % (pr['dset'], pr['tool'], pr['index']) for pr in inp['prior']]
+    names = ['%s-%s_%03d' % (pr['dset'], _nt(pr['tool']), pr['index']) for pr in inp['prior']]
     byname = dict(zip(names, inp['prior']))
     n = inp['n']
     good_complete = [nm for nm in names if _genuine(inp, byname[nm]) and _kind(byname[nm], n) == 'complete']
@@ -338,7 +349,7 @@ def oracle(inp, obs):
             pr = byname[ret]
             computed = bool(obs['calls'])
             if not _genuine(inp, pr):
-                why = 'foreign-source' if (pr['foreign'] and pr['dset'] == inp['dset'] and pr['tool'] == inp['tool']
+                why = 'foreign-source' if (pr['foreign'] and pr['dset'] == inp['dset'] and _nt(pr['tool']) == _nt(inp['tool'])
                                            and pr['parms_kind'] in ('same', 'extra')) else 'other'
                 fails.append('genuine-%s: group %s (dataset %s%s, tool %s, parms %s) was %s for (%s, %s)'
                              % (why, ret, 'FOREIGN ' if pr['foreign'] else '', pr['dset'], pr['tool'], pr['parms_kind'],
@@ -395,14 +406,14 @@ def model_requests(inp):
     if inp.get('kind') == 'twin':
         return []
     groups = []
-    prior = sorted(inp['prior'], key=lambda pr: '%s-%s_%03d' % (pr['dset'], pr['tool'], pr['index']))
+    prior = sorted(inp['prior'], key=lambda pr: '%s-%s_%03d' % (pr['dset'], _nt(pr['tool']), pr['index']))
     for pr in prior:
         attrs = dict(pr['parms'])
-        attrs['tool'] = pr['tool']
+        attrs['tool'] = _nt(pr['tool'])
         groups.append({'other_source': pr.get('src_ref') == 'other' and not inp['separate'],
-                       'name': '%s-%s_%03d' % (pr['dset'], pr['tool'], pr['index']), 'is_group': True,
+                       'name': '%s-%s_%03d' % (pr['dset'], _nt(pr['tool']), pr['index']), 'is_group': True,
                        'attrs': _enc_dict(attrs), 'status': _enc_status(pr, inp['n']),
-                       'last_pixel': pr['last_pixel'] if pr['progress'].startswith('legacy') else None})
+                       'last_pixel': pr['last_pixel'] if pr['progress'].startswith('legacy') else pr.get('also_last_pixel')})
     return [{'op': 'dup.decide', 'groups': groups, 'dset': inp['dset'], 'tool': inp['tool'],
              'parms': _enc_dict(inp['query_parms']), 'n': inp['n'], 'override': inp['override']}]
 
@@ -419,7 +430,7 @@ def project(inp, obs):
         return {'twin': True}
     if 'construct_err' in obs or 'compute_err' in obs:
         return {'err': True}
-    names = ['%s-%s_%03d' % (pr['dset'], pr['tool'], pr['index']) for pr in inp['prior']]
+    names = ['%s-%s_%03d' % (pr['dset'], _nt(pr['tool']), pr['index']) for pr in inp['prior']]
     ret = obs['returned']
     if ret in names:
         dec = {'kind': 'resume' if obs['calls'] else 'return', 'name': ret}
